@@ -55,6 +55,7 @@ func main() {
 	res.Assume("successive versions of a group file differ in size or modification time (vos logical mtimes: every mutation gets a fresh mtime)")
 	res.Assume("power-failure model: file data written after the last Sync may be lost (file keeps its last-synced prefix or is empty); renames and unlinks are durable in program order (directory fsync is not modelled)")
 	res.Assume("the property is a safety statement: a refused conditional write (any non-2xx status, including the 500 produced by the in-lock tag re-check) is never a violation; for objects sharing one file (group, its users, keys) a write conditioned on one object may be acknowledged after a change of another only if no acknowledged change is lost")
+	cleanup()
 	res.Assume("syntactically broken If-Match/If-None-Match values are don't-care from the first syntax error on; a weak element is don't-care for If-None-Match and must not match for If-Match")
 	core.Finish(res, start)
 }
